@@ -94,6 +94,12 @@ pub fn do_call(adf: &mut Adf, text: &str, c: &HCall) -> Vec<Vec<usize>> {
             }
             vec![]
         }
+        // seeding is a call of its own, and a Rand search may come any number of calls later: nothing in between may touch the generator
+        "seed" => {
+            adf.seed(seed32(c.seed));
+            vec![]
+        }
+        "ngr" => raw(&adf.stable_nogood(Heuristic::Rand).collect::<Vec<_>>()),
         // the documented repair step is a public call like any other: on a live object it must change nothing
         "repair" => {
             adf.fix_import();
@@ -104,7 +110,7 @@ pub fn do_call(adf: &mut Adf, text: &str, c: &HCall) -> Vec<Vec<usize>> {
 }
 
 pub fn rand_call(rng: &mut StdRng) -> HCall {
-    let kinds = ["grounded", "complete", "stable", "prefilter", "count_a", "count_b", "rew", "ng", "ng", "ng", "twoval", "formulacounts", "facet", "bddop", "bddop", "repair"];
+    let kinds = ["grounded", "complete", "stable", "prefilter", "count_a", "count_b", "rew", "ng", "ng", "ng", "twoval", "formulacounts", "facet", "bddop", "bddop", "repair", "seed", "ngr", "ngr"];
     let c = kinds[rng.gen_range(0..kinds.len())];
     let h = if c == "ng" || c == "twoval" {
         ["Simple", "MinModMinPathsMaxVarImp", "MinModMaxVarImpMinPaths", "Rand"][rng.gen_range(0..4)]
@@ -173,6 +179,20 @@ pub fn one_history(rng: &mut StdRng, id: String, out: &mut Vec<Value>, persist: 
             }
         })
         .collect();
+    // an unseeded Rand search is entropy-driven: "ngr" is only meaningful after a "seed" call on the same object, and never on a
+    // persisted copy (the generator is not part of the exported state)
+    let mut calls = calls;
+    if persist {
+        calls.retain(|c| c.c != "ngr" && c.c != "seed");
+        if calls.is_empty() {
+            calls.push(HCall { c: "grounded", h: "-", seed: 0, ops: vec![] });
+        }
+    } else if let Some(first_ngr) = calls.iter().position(|c| c.c == "ngr") {
+        if !calls[..first_ngr].iter().any(|c| c.c == "seed") {
+            calls.insert(0, HCall { c: "seed", h: "-", seed: rng.gen(), ops: vec![] });
+        }
+    }
+    let len = calls.len();
     let persist_at = if persist { rng.gen_range(0..=len) } else { usize::MAX };
     let persist_how = if rng.gen_bool(0.5) { "serde" } else { "rebuild" };
     run_history(id, &case, backend, calls, persist, persist_at, persist_how, out);
@@ -203,7 +223,8 @@ pub fn determinism_prefilter(rng: &mut StdRng, cases: usize, out: &mut Vec<Value
         let backend = [Backend::Native, Backend::Hybrid, Backend::HybridNoPre][rng.gen_range(0..3)];
         let seed: u64 = rng.gen();
         let calls = vec![mk("grounded", "-", 0), mk("complete", "-", 0), mk("ng", "MinModMinPathsMaxVarImp", 0), mk("ng", "MinModMaxVarImpMinPaths", 0),
-                         mk("ng", "Rand", seed), mk("stable", "-", 0), mk("twoval", "MinModMinPathsMaxVarImp", 0), mk("ng", "Rand", seed), mk("count_a", "-", 0)];
+                         mk("ng", "Rand", seed), mk("stable", "-", 0), mk("twoval", "MinModMinPathsMaxVarImp", 0), mk("ng", "Rand", seed), mk("count_a", "-", 0),
+                         mk("seed", "-", seed), mk("ngr", "-", 0), mk("repair", "-", 0), mk("ngr", "-", 0)];
         breadcrumb(&json!({"kind": "history-prefilter", "id": id, "text": text, "src": backend.name()}));
         let (t1, c1) = (text.clone(), calls.clone());
         let r = guarded(60, move || {
